@@ -119,6 +119,7 @@ func c02GenSign(t *rapid.T) c02SignCase {
 		c.Others = append(c.Others, o)
 	}
 	c.BatchEnt = c02GenEnt(t, "be")
+	c.BatchEnt.Limit, c.BatchEnt.EOFData = -1, false // how much a batch verifier reads is not documented: endless source
 	c.NoExpand = rapid.Bool().Draw(t, "noexpand")
 	c.Deep = rapid.IntRange(0, 7).Draw(t, "deep") == 0
 	return c
